@@ -159,6 +159,14 @@ func H_C05_msg() {
 	}
 	// everything the message gave rise to, on the torrent side
 	vDrain(t)
+	if vParam("exit") == 1 {
+		// "at worst disconnects that one peer": the peer then goes away (the real exit path of
+		// peer.Run, which checks its own bookkeeping and panics if it is inconsistent), and the
+		// torrent handles what the exit path emits
+		peer.VRunExit(p, t.Event)
+		vDrain(t)
+		vReach("disconnected")
+	}
 	bound := 64 + 16*size + 64
 	a := vMaxAlloc()
 	if kind == 19 || kind == 17 {
